@@ -78,10 +78,18 @@ def identity_tree(r, depth=0, value=None):
     return ("", value, "", 0, n, tuple(kids))
 
 
-def build(c, parent=None):
-    """Canonical tuple -> real multidecoder Node tree (parent links set)."""
+def build(c, parent=None, linkage="full"):
+    """Canonical tuple -> real multidecoder Node tree. linkage: 'full' = parent links set; 'none' = children carry no
+    parent reference (trees assembled by hand); 'foreign' = children still point at a node of another tree that holds
+    other text (a child list handed from one node to another)."""
     from multidecoder.node import Node
 
-    node = Node(c[0], c[1], c[2], c[3], c[4], parent)
-    node.children = [build(k, node) for k in c[5]]
+    if linkage == "full" or parent is None:
+        link = parent
+    elif linkage == "none":
+        link = None
+    else:
+        link = Node("", b"\x00 other text \xff" * 3, "", 0, 0)
+    node = Node(c[0], c[1], c[2], c[3], c[4], link)
+    node.children = [build(k, node, linkage) for k in c[5]]
     return node
